@@ -199,12 +199,15 @@ pub struct MMsg {
     pub contract: [u8; 32],
     #[serde(with = "hex32")]
     pub payload_hash: [u8; 32],
+    /// the destination is the ACCOUNT address carrying these 32 bytes, not the contract address
+    #[serde(default)]
+    pub account: bool,
 }
 
 impl MMsg {
     pub fn to_scval(&self) -> ScVal {
         smap(vec![
-            ("contract_address", saddr_contract(&self.contract)),
+            ("contract_address", if self.account { ScVal::Address(ScAddress::Account(soroban_sdk::xdr::AccountId(soroban_sdk::xdr::PublicKey::PublicKeyTypeEd25519(soroban_sdk::xdr::Uint256(self.contract))))) } else { saddr_contract(&self.contract) }),
             ("message_id", sstr(&self.message_id)),
             ("payload_hash", sbytes(&self.payload_hash)),
             ("source_address", sstr(&self.source_address)),
@@ -376,6 +379,7 @@ pub fn selftest(repo: &str) -> Result<usize, String> {
             source_address: "CAAAAAAAAAAAAAAAAAAAAAAAAAAAAAAAAAAAAAAAAAAAAAAAAAAAHK3M".into(),
             contract: to_id("CAAAAAAAAAAAAAAAAAAAAAAAAAAAAAAAAAAAAAAAAAAAAAAAAAAAMDR4"),
             payload_hash: hx(h),
+            account: false,
         })
         .collect();
     let p = format!("{}/contracts/axelar-gateway/src/testdata/messages_approval_hash.golden", repo);
